@@ -12,6 +12,19 @@ TRUST = ("Trusted: govc itself (go/ssa semantics, memory model, contract parser)
          "slice/string/map lengths < 2^48, sequential semantics. Integers are mathematical with Go wrap-around written out.")
 
 CLAIMED = {
+ "C18": dict(
+   text=("Two thirds of this property relate whole runs (processing twice vs once, incremental vs batch loading): contracts on single calls cannot state "
+         "that, so the relation itself is a bounded stand-in (labelled): random histories of up to 14 operations on one module set -- load a good text, "
+         "load a bad text (syntax error, unknown statement, a valid module followed by an invalid one, a top-level non-module), load a text with a module "
+         "whose name is taken (also behind a fine module), read every tree, process, process twice -- compared after every process with the batch run of "
+         "the good texts on a fresh set: complete rendering of all trees, types, identity lists and errors. Deductive proof of the single-call mechanisms "
+         "the relation rests on: Process hands over to process only with an empty entry cache and empty merged-submodule marks (call-site assertion; "
+         "ClearEntryCache's contract); Modules.include leaves a module that could not be completed unmarked, so the next run tries again (closure and "
+         "function contract); Modules.Parse builds only modules and submodules; an already resolved type or typedef answers with what was found then and "
+         "is left alone. Six defects of this property were found by the history test and repaired (failed import never retried; resolved-with-errors "
+         "came out clean on the second run; Parse not atomic; typedefs of refused modules kept; types resolved before Process kept). Assumed: "
+         "forgetResolvedTypes (reflection) writes resolved-type fields only."),
+   ref="8 (C18)"),
  "C03": dict(
    text=("The one-to-one mirroring is implemented by closures over reflect that are generated at package init: no contract in this memory model can say "
          "that a substatement lands in the field of its keyword, so that part is a bounded stand-in (labelled) and nothing about it is counted as proved: "
@@ -198,7 +211,6 @@ CLAIMED = {
 }
 
 NOT_REACHED = {
- "C18": "not applicable with the contracts within reach: two thirds of the statement relate whole runs (processing twice vs once, incremental vs batch loading), which contract-based verification of single calls cannot state; the single-call part (a failed load leaves no trace) lives on Modules.Parse, whose body is an unknown call into the reflection builder, so no frame can be proved across it. One defect of this property (a type resolved with errors came out clean on the second run) was found, repaired (fix 5ab493d) and is guarded by the two-run comparison of the C09 stand-in. DESIGN.md section 13.",
 }
 
 def main():
